@@ -1,10 +1,3 @@
-pub mod common {
-pub mod bits {
-use vstd::prelude::*;
-//@fn rodbus/src/common/bits.rs | num_bytes_for_bits | tags=C01,C04,C07
-//@|    ensures r as int == (count as int + 7) / 8, r <= 8192,
-}
-pub mod function {
 use vstd::prelude::*;
 pub mod constants {
 //@item rodbus/src/common/function.rs | constants::READ_COILS
@@ -50,5 +43,3 @@ impl FunctionCode {
 //@fn rodbus/src/common/function.rs | FunctionCode::get | tags=C01,C04
 //@|    ensures r == spec_fc_of(value),
 }
-} // mod function
-} // mod common
